@@ -27,4 +27,21 @@ PROPS = {
                   "regenerated": ["bootstrap.pl op/3 directives"], "observed_only": ["Parser (probe)", "WriteCompound (probe)"]},
         assumptions=["pattern variables of current_op/3 calls are pairwise distinct (the model matches argument-wise)"],
     ),
+    "C02": dict(
+        lean_module="PrologVerif.Properties.C02",
+        ns="PrologVerif.C02",
+        streams=[dict(name="c02.unify", quick=6000, thorough=60000),
+                 dict(name="c02.env", quick=600, thorough=6000)],
+        rule="c02.unify: pairs of random terms (atoms, ints, floats, variables shared within and between the sides, compounds, proper/partial/improper lists), the second often a mutation of the first so that most pairs unify; every list is built through a constructor path drawn per case (bracket list, './2 compound, char/code string, append/3 fast path = partial over another encoding, =../2, findall/3, atom_chars/2, copy_term/2); modes X=Y, Y=X, unify_with_occurs_check, failure observation ((X=Y->R=yes;R=no)), clause-head unification; pairs subject to occurs check are only given to unify_with_occurs_check. Observed: success, X==Y afterwards, bindings of all variables. c02.env: random bind sequences on persistent environments, each bind on the latest or on any older version; every version is dumped (shape, colours, keys, values) with all lookups. Non-trivial: both sides compound or >=2 encodings involved (unify); >=4 versions (env).",
+        level_text="Proof: Resolve/unify/contains (engine/env.go) are modelled in Lean over abstract terms with fuel; for ALL terms, environments and fuel a finished run preserves the solution set exactly (C02_unify_preserves_solutions: success = soundness + no unifier lost, failure = not unifiable, occurs = no finite unifier), is symmetric, agrees with the checked version on NSTO pairs (C02_nsto_agrees), and with the occurs check yields an idempotent most general unifier (C02_unify_oc_mgu) after which the terms are identical (C02_identical_after_success). The red-black tree environment is proved to refine a finite map (C02_rbenv_refines_map) and every Go term encoding is proved faithful to its abstract term through the Compound interface (C02_rep_faithful_*). Tied to the code by the correspondence streams c02.unify (with an independent textbook unification algorithm as oracle) and c02.env (tree shape of every version).",
+        level_note="Trusted: Lean kernel; hand-written models of unify/Resolve/contains, the tree and the encodings (checked by differential runs); Go's Resolve stop list is not modelled (it matters only for pure variable cycles, which unify cannot create; the model runs out of fuel there); termination of unify on acyclic environments is not proved (fuel); cyclic terms excluded as in the property; -0.0/NaN floats not generated.",
+        technique="Lean 4 solution-set preservation proof for unify (induction on fuel), idempotent-mgu invariant, red-black tree refinement, + model/implementation correspondence with an independent reference unifier as oracle",
+        trusted=[
+            "modelled (hand-written, correspondence-checked): engine/env.go Resolve, unify, contains, lookup, bind, insert, balance, newEnvKey; engine/compound.go list/partial/charList/codeList/compound Functor/Arity/Arg",
+            "not modelled: Resolve's stop list (pure variable cycles only); exec's opGet* head unification is observed through mode h of c02.unify and modelled in C01/C10; callers' handling of a failed unification is observed (mode f), not proved here",
+        ],
+        modelled={"hand_modelled": ["Env.Resolve", "Env.unify", "contains", "Env.lookup", "Env.bind", "Env.insert", "Env.balance", "newEnvKey", "list/partial/charList/codeList/compound methods"],
+                  "observed_only": ["opGet* head unification", "Unify/UnifyWithOccursCheck builtins' failure handling"]},
+        assumptions=["pairs subject to occurs check are excluded for =/2 (ISO 7.3.3), as the property says", "no -0.0 / NaN floats in generated terms (Go compares floats with IEEE ==)"],
+    ),
 }
